@@ -54,6 +54,29 @@ def main():
     sys.setrecursionlimit(3000)
     for line in sys.stdin:
         job = json.loads(line)
+        if "scaling_rows" in job:
+            # time the flat parse of ONE frame holding n tiny rows (built here: the hex of 400 000 rows is not worth a pipe)
+            import time  # noqa: PLC0415
+
+            from . import wire  # noqa: PLC0415
+
+            bn = {"t": "bn", "v": "b"}
+            opt = {"r": "opt", "name": "", "pt": 1, "gen": False, "star": False, "mn": 8, "mp": 0, "md": 0, "lt": 1, "ver": 1}
+            row = wire._ld(1, wire.enc_row({"r": "triple", "s": bn, "p": bn, "o": bn})) if job.get("explicit") else wire._ld(1, wire.enc_row({"r": "triple", "o": bn}))
+            first = wire._ld(1, wire.enc_row(opt)) + wire._ld(1, wire.enc_row({"r": "triple", "s": bn, "p": bn, "o": bn}))
+            body = first + row * job["scaling_rows"]
+            data_ = wire.enc_varint(len(body)) + body
+            out = {}
+            for integ in ("generic", "rdflib"):
+                t0 = time.perf_counter()
+                try:
+                    n = run_one(integ, "flat", io.BytesIO(data_))
+                except Exception as ex:  # noqa: BLE001
+                    n = "raise:" + type(ex).__name__
+                out[integ] = [n, time.perf_counter() - t0]
+            sys.stdout.write(json.dumps({"id": job["id"], "scaling": out}) + "\n")
+            sys.stdout.flush()
+            continue
         data = bytes.fromhex(job["hex"])
         res = {}
         rss0 = resource.getrusage(resource.RUSAGE_SELF).ru_maxrss
